@@ -22,14 +22,15 @@ func init() {
 		Explanation: "Decided (necessary conditions, for every failing call at any nesting depth): (R06.1) every wazevoapi.ExitCode constant has an arm in the Go-side dispatch loop, so no exit falls into the BUG default; arms that do not resume native code panic with a wasmruntime error value; " +
 			"(R06.2) every arm that re-enters native code resets the exit code to OK first; the call entry's deferred function calls recover() unconditionally and resets the exit code on every path that leaves with a non-nil error (a function object stays usable after a trap, a stack overflow, a host panic or an exit); " +
 			"(R06.3) the interpreter's recover path truncates both the value stack and the frame stack unconditionally; (R06.4) every panic in the two engines' run-time files carries a documented kind (wasmruntime error, the error of FailIfClosed/ExitError, a snapshot, or an internal BUG/TODO string); " +
-			"(R06.5) both engines compare the stack size with a ceiling before growing and report wasmruntime.ErrRuntimeStackOverflow; (R06.6) the closed word keeps the exit code in its high half on every transition (new = flag | code<<32 from 0; flag bits only otherwise). " +
+			"(R06.8) a panic that a call's recover path re-throws (a snapshot restore crossing a nested call) is preceded by the clean-up every other failure path does – exit-code reset in the compiler, truncation of both stacks in the interpreter (genuine defects found and fixed on both engines); (R06.5) both engines compare the stack size with a ceiling before growing and report wasmruntime.ErrRuntimeStackOverflow; (R06.6) the closed word keeps the exit code in its high half on every transition (new = flag | code<<32 from 0; flag bits only otherwise). " +
 			"(R06.7) the context watcher a call starts is stopped by a deferred call, so that a failed call does not leave a watcher that later closes the healthy instance. NOT decided: correctness of native frame unwinding and stack-pointer adjustment, behaviour of later calls in general.",
 		Rules: []core.Rule{
 			{ID: "R06.1", Template: "T-EXHAUST", Text: "every ExitCode constant has an arm; non-resuming arms panic with a wasmruntime error", Min: 20},
 			{ID: "R06.2", Template: "T-MUSTPASS", Text: "reset-before-resume; deferred recover is unconditional and resets the exit code on every failing path", Min: 8},
 			{ID: "R06.3", Template: "T-SIBLING", Text: "interpreter recover path truncates value stack and frame stack", Min: 1},
 			{ID: "R06.4", Template: "T-WHOCALLS", Text: "panic values in the engines run-time files have a documented kind; both engines raise the same set of wasmruntime errors", Min: 10},
-			{ID: "R06.5", Template: "T-CONSULT", Text: "stack ceilings are compared before growth", Min: 2},
+			{ID: "R06.5", Template: "T-CONSULT", Text: "stack ceilings are compared before growth", Min: 3},
+			{ID: "R06.8", Template: "T-MUSTPASS", Text: "a panic re-thrown by a call's recover path (snapshot restore crossing a nested call) is preceded by the same clean-up as every other failure (genuine defects found and fixed on both engines)", Min: 2},
 			{ID: "R06.6", Template: "T-REPR", Text: "closed-word transitions preserve the exit code in the high half", Min: 2},
 			{ID: "R06.7", Template: "T-MUSTPASS", Text: "the context watcher of a call is stopped by a deferred call (also on panic exits)", Min: 2},
 		},
@@ -38,9 +39,11 @@ func init() {
 			{Name: "exitcode-without-arm", File: "internal/engine/wazevo/call_engine.go", Old: "\t\tcase wazevoapi.ExitCodeUnalignedAtomic:\n\t\t\tpanic(wasmruntime.ErrRuntimeUnalignedAtomic)\n", New: "", Rule: "R06.1", Substr: "ExitCodeUnalignedAtomic"},
 			{Name: "resume-without-reset", File: "internal/engine/wazevo/call_engine.go", Old: "\t\t\tc.execCtx.exitCode = wazevoapi.ExitCodeOK\n\t\t\tafterGoFunctionCallEntrypoint(c.execCtx.goCallReturnAddress, c.execCtxPtr, uintptr(unsafe.Pointer(c.execCtx.stackPointerBeforeGoCall)), c.execCtx.framePointerBeforeGoCall)\n\t\tcase wazevoapi.ExitCodeTableGrow:", New: "\t\t\tafterGoFunctionCallEntrypoint(c.execCtx.goCallReturnAddress, c.execCtxPtr, uintptr(unsafe.Pointer(c.execCtx.stackPointerBeforeGoCall)), c.execCtx.framePointerBeforeGoCall)\n\t\tcase wazevoapi.ExitCodeTableGrow:", Rule: "R06.2", Substr: "ExitCodeGrowMemory"},
 			{Name: "reset-only-after-panic", File: "internal/engine/wazevo/call_engine.go", Old: "\t\tif err != nil {\n\t\t\t// Ensures that we can reuse this callEngine even after an error.\n\t\t\tc.execCtx.exitCode = wazevoapi.ExitCodeOK\n\t\t}\n", New: "\t\tif err != nil && r != nil {\n\t\t\t// Ensures that we can reuse this callEngine even after an error.\n\t\t\tc.execCtx.exitCode = wazevoapi.ExitCodeOK\n\t\t}\n", Rule: "R06.2", Substr: "deferred"},
-			{Name: "interp-frames-not-truncated", File: "internal/engine/interpreter/interpreter.go", Old: "\tce.stack, ce.frames = ce.stack[:0], ce.frames[:0]\n", New: "\tce.stack = ce.stack[:0]\n", Rule: "R06.3", Substr: "recover"},
+			{Name: "interp-frames-not-truncated", File: "internal/engine/interpreter/interpreter.go", Old: "\t// Allows the reuse of CallEngine.\n\tce.stack, ce.frames = ce.stack[:0], ce.frames[:0]\n", New: "\tce.stack = ce.stack[:0]\n", Rule: "R06.3", Substr: "recover"},
+			{Name: "interp-rethrow-without-reset", File: "internal/engine/interpreter/interpreter.go", Old: "\t\tce.stack, ce.frames = ce.stack[:0], ce.frames[:0]\n\t\tpanic(s)\n", New: "\t\tpanic(s)\n", Rule: "R06.8", Substr: "interpreter"},
+			{Name: "compiler-rethrow-without-reset", File: "internal/engine/wazevo/call_engine.go", Old: "\t\t\tc.execCtx.exitCode = wazevoapi.ExitCodeOK\n\t\t\tpanic(s)\n", New: "\t\t\tpanic(s)\n", Rule: "R06.8", Substr: "compiler"},
 			{Name: "panic-with-bare-int", File: "internal/engine/interpreter/interpreter.go", Old: "\tif callStackCeiling <= len(ce.frames) {\n\t\tpanic(wasmruntime.ErrRuntimeStackOverflow)", New: "\tif callStackCeiling <= len(ce.frames) {\n\t\tpanic(len(ce.frames))", Rule: "R06.4", Substr: "pushFrame"},
-			{Name: "interp-no-ceiling", File: "internal/engine/interpreter/interpreter.go", Old: "\tif callStackCeiling <= len(ce.frames) {\n\t\tpanic(wasmruntime.ErrRuntimeStackOverflow)\n\t}\n", New: "", Rule: "R06.5", Substr: "interpreter"},
+			{Name: "interp-no-ceiling", File: "internal/engine/interpreter/interpreter.go", Old: "\tif callStackCeiling <= len(ce.frames) {\n\t\tpanic(wasmruntime.ErrRuntimeStackOverflow)\n\t}\n\tce.frames = append(ce.frames, frame)", New: "\tce.frames = append(ce.frames, frame)", Rule: "R06.5", Substr: "interpreter"},
 			{Name: "interp-watcher-stopped-only-on-normal-return", File: "internal/engine/interpreter/interpreter.go", Old: "\t\tdone := m.CloseModuleOnCanceledOrTimeout(ctx)\n\t\tdefer done()\n\t}\n\n\tce.callFunction(ctx, m, ce.f)\n", New: "\t\tdone := m.CloseModuleOnCanceledOrTimeout(ctx)\n\t\tce.callFunction(ctx, m, ce.f)\n\t\tdone()\n\t} else {\n\t\tce.callFunction(ctx, m, ce.f)\n\t}\n", Rule: "R06.7", Substr: "interpreter"},
 			{Name: "closed-word-loses-exit-code", File: "internal/wasm/module_instance.go", Old: "m.Closed.CompareAndSwap(closed, (closed&^exitCodeFlagMask)|exitCodeFlagResourceClosed)", New: "m.Closed.CompareAndSwap(closed, exitCodeFlagResourceClosed|uint64(uint32(closed>>32)))", Rule: "R06.6", Substr: "FailIfClosed"},
 		},
@@ -207,6 +210,27 @@ func runC06(c *core.Ctx) {
 						}
 					}
 				}
+				// (c) a re-thrown panic leaves the deferred function before that reset: it needs its own
+				for _, l := range blocksOf(deferLit.Body) {
+					for i, s := range l.List {
+						es, ok := s.(*ast.ExprStmt)
+						if !ok {
+							continue
+						}
+						call, ok := es.X.(*ast.CallExpr)
+						if !ok || !core.IsBuiltin(info, call, "panic") {
+							continue
+						}
+						pre := false
+						for _, prev := range l.List[:i] {
+							if assignsExitOKDirect(info, prev, okK) {
+								pre = true
+							}
+						}
+						c.Check(pre, "R06.8", "compiler: the exit code is reset before the deferred function re-throws `"+core.ExprStr(call)+"`", call.Pos(), "exitCode = ExitCodeOK precedes the panic in the same block",
+							"the deferred function re-throws (a snapshot restore crossing this nested call) without resetting the exit code: this call is over, and the next ordinary call on the same function object handles the stale Go-call exit again (invokes the host function once more)")
+					}
+				}
 				c.Check(reset, "R06.2", "deferred reset of the exit code in "+core.FuncName(ep, loopFn), deferLit.Pos(), "the exit code is reset whenever the call leaves with an error (top-level `if err != nil`)",
 					"the exit code is not reset on every path that leaves with an error (e.g. a stack overflow returned without a panic): the same function object reports that stale exit on its next call")
 			}
@@ -257,6 +281,45 @@ func runC06(c *core.Ctx) {
 							trunc[f.Name()] = true
 						}
 					}
+				}
+			}
+			truncates := func(st ast.Stmt) map[string]bool {
+				t := map[string]bool{}
+				as, ok := st.(*ast.AssignStmt)
+				if !ok {
+					return t
+				}
+				for i, l := range as.Lhs {
+					f := core.FieldOf(info, l)
+					if f == nil || i >= len(as.Rhs) {
+						continue
+					}
+					if se, ok := as.Rhs[i].(*ast.SliceExpr); ok && se.Low == nil && se.High != nil {
+						if v, ok := core.ConstVal(info, se.High); ok && v == 0 && core.FieldOf(info, se.X) == f {
+							t[f.Name()] = true
+						}
+					}
+				}
+				return t
+			}
+			for _, l := range blocksOf(fd.Body) {
+				for i, st := range l.List {
+					es, ok := st.(*ast.ExprStmt)
+					if !ok {
+						continue
+					}
+					call, ok := es.X.(*ast.CallExpr)
+					if !ok || !core.IsBuiltin(info, call, "panic") {
+						continue
+					}
+					t := map[string]bool{}
+					for _, prev := range l.List[:i] {
+						for k := range truncates(prev) {
+							t[k] = true
+						}
+					}
+					c.Check(t["stack"] && t["frames"], "R06.8", "interpreter: both stacks are truncated before the recover path re-throws `"+core.ExprStr(call)+"`", call.Pos(), "ce.stack and ce.frames are reset before the panic in the same block",
+						"the recover path re-throws (a snapshot restore crossing this nested call) without resetting the call engine: the frames and operands of the aborted call stay for ever and the function object eventually fails with a spurious stack overflow")
 				}
 			}
 			var miss []string
@@ -417,6 +480,54 @@ func runC06(c *core.Ctx) {
 			"no function of the "+name+" call engine compares the stack size with its ceiling before growing: unbounded recursion exhausts host memory instead of returning a stack-overflow error")
 	}
 	checkCeiling("interpreter", "internal/engine/interpreter", "callEngine")
+	if pk := c.Pkg("internal/engine/interpreter"); pk != nil {
+		info := pk.TypesInfo
+		n := 0
+		core.AllFuncDecls(pk, func(fd *ast.FuncDecl) {
+			ast.Inspect(fd.Body, func(x ast.Node) bool {
+				as, ok := x.(*ast.AssignStmt)
+				if !ok || len(as.Lhs) != 1 || len(as.Rhs) != 1 {
+					return true
+				}
+				f := core.FieldOf(info, as.Lhs[0])
+				call, isCall := as.Rhs[0].(*ast.CallExpr)
+				if f == nil || f.Name() != "frames" || !strings.Contains(f.Type().String(), "callFrame") || !isCall || !core.IsBuiltin(info, call, "append") {
+					return true
+				}
+				n++
+				guard := false
+				ast.Inspect(fd.Body, func(y ast.Node) bool {
+					is, ok := y.(*ast.IfStmt)
+					if !ok || is.Pos() > as.Pos() {
+						return true
+					}
+					ceil, over := false, false
+					ast.Inspect(is.Cond, func(z ast.Node) bool {
+						if id, ok := z.(*ast.Ident); ok && strings.Contains(strings.ToLower(id.Name), "ceiling") {
+							ceil = true
+						}
+						return true
+					})
+					ast.Inspect(is.Body, func(z ast.Node) bool {
+						if se, ok := z.(*ast.SelectorExpr); ok && se.Sel.Name == "ErrRuntimeStackOverflow" && isRuntimeErr(info, se) {
+							over = true
+						}
+						return true
+					})
+					if ceil && over {
+						guard = true
+					}
+					return true
+				})
+				c.Check(guard, "R06.5", "interpreter "+fd.Name.Name+": the frame stack grows only after the ceiling comparison", as.Pos(), "the append to the frame stack is preceded by the ceiling check in the same function",
+					"the frame stack is appended to without a ceiling comparison in the same function: unbounded recursion exhausts host memory instead of returning a stack-overflow error")
+				return true
+			})
+		})
+		if n == 0 {
+			c.Undecided("R06.5", "interpreter frame-stack growth", 0, "no append to the frame stack found")
+		}
+	}
 	checkCeiling("wazevo", "internal/engine/wazevo", "callEngine")
 
 	// ---- R06.6 closed word encoding
@@ -637,4 +748,22 @@ func checkWatcherStopped(c *core.Ctx) {
 	if n < 2 {
 		c.Undecided("R06.7", "context watchers", 0, fmt.Sprintf("only %d watcher start(s) found in the engines", n))
 	}
+}
+
+
+// blocksOf lists every statement list (with its statements) nested in n.
+func blocksOf(n ast.Node) []*ast.BlockStmt {
+	var out []*ast.BlockStmt
+	ast.Inspect(n, func(x ast.Node) bool {
+		switch y := x.(type) {
+		case *ast.BlockStmt:
+			out = append(out, y)
+		case *ast.CaseClause:
+			out = append(out, &ast.BlockStmt{List: y.Body})
+		case *ast.CommClause:
+			out = append(out, &ast.BlockStmt{List: y.Body})
+		}
+		return true
+	})
+	return out
 }
